@@ -90,10 +90,18 @@ TPlanBuilt ==
   /\ Chk("all_nodes_of_a_variable_are_in_the_model", Ev.var_nodes_present)
   /\ Chk("an_accepted_plan_is_acyclic", ~CyclicPlan(Ev.inp))
   /\ UNCHANGED bvars /\ Step
+\* copies behave like the original and independently of it
+TCopyBehaviour ==
+  /\ IsEvent("copy_behaviour")
+  /\ Chk("copy_completed", Ev.crash = "")
+  /\ Chk("copy_follows_its_own_values", Ev.copy_follows_its_own_values)
+  /\ Chk("original_unaffected_by_changes_in_the_copy", Ev.original_unaffected)
+  /\ Chk("copy_unaffected_by_changes_in_the_original", Ev.copy_unaffected_by_original)
+  /\ UNCHANGED bvars /\ Step
 TMustReject ==
   /\ IsEvent("must_reject")
   /\ Chk("cyclic_or_duplicate_named_graph_is_rejected", Ev.got = Ev.expect)
   /\ UNCHANGED bvars /\ Step
 
-TNext == TPlanBuilt \/ TMustReject \/ TAdd \/ TAddAgain \/ TBuild \/ TBuildEmpty \/ TMutate \/ TPop \/ TDrop \/ TCopy \/ TAssign
+TNext == TPlanBuilt \/ TCopyBehaviour \/ TMustReject \/ TAdd \/ TAddAgain \/ TBuild \/ TBuildEmpty \/ TMutate \/ TPop \/ TDrop \/ TCopy \/ TAssign
 =============================================================================
